@@ -3,6 +3,7 @@ import LettreVerif.Proofs.Headers
 import LettreVerif.Proofs.DkimSig
 import LettreVerif.Proofs.MailboxEnc
 import LettreVerif.Proofs.Wire
+import LettreVerif.Proofs.TextFold
 /-!
 # C02 — Header section is well-formed and injection-proof for any supplied text
 
@@ -107,6 +108,28 @@ theorem trailing_spaces_witness :
 theorem space_run_witness :
     (HeaderReader.physicalLines [] ((str "X") ++ [58, 32] ++ encodeValue opts 1 (List.replicate 1000 32 ++ [120]))).any
       (fun l => l.length > 998) = true := by
+  decide +kernel
+
+/-! ## line lengths of text values -/
+
+/-- **A text value made of words is folded within the limits, however long.** For every list of words — visible ASCII,
+    each of 1 to 75 octets, none of the shape `=?…?=` — separated by single spaces, the first of which fits after the field
+    name, every line of the field that `HeaderValue::new` writes (name, colon and space included) is at most 78 octets
+    long. This is the 78-octet clause of the property for `Subject`-like values on the class where no recorded folding
+    finding applies (no HTAB, no runs of blanks, no trailing blank, nothing that needs an encoded-word); outside it the
+    bound is checked on the real output (and has the recorded findings). `Proofs/TextFold.lean`. -/
+theorem text_value_folded (nameLen : Nat) (ts : List Bytes) (hne : ts ≠ []) (ht : ∀ t ∈ ts, TextFold.WordOk t)
+    (hfirst : ∀ t, ts.head? = some t → nameLen + 2 + t.length ≤ 78) :
+    HeaderReader.linesOkGo true 78 (nameLen + 2) (encodeValue opts nameLen (TextFold.joinSp ts) ++ [13, 10]) = true :=
+  TextFold.text_value_lines nameLen ts hne ht hfirst
+
+/-- non-vacuity: forty words of nine octets under `Subject` — five lines, none over 78 octets; and the decidable part of
+    `WordOk` on one of them -/
+example :
+    let ts : List Bytes := (List.range 40).map fun i => str s!"word{1000 + i}x"
+    (HeaderReader.physicalLines [] (str "Subject: " ++ encodeValue opts 7 (TextFold.joinSp ts) ++ [13, 10])).all (fun l => l.length ≤ 78) = true ∧
+    (HeaderReader.physicalLines [] (str "Subject: " ++ encodeValue opts 7 (TextFold.joinSp ts) ++ [13, 10])).length = 7 ∧
+    TextFold.encShaped (str "word1000x") = false ∧ TextFold.encShaped (str "=?x?=") = true := by
   decide +kernel
 
 /-! ## mailbox headers (From, Sender, To, Cc, Bcc, Reply-To) -/
